@@ -390,6 +390,17 @@ func PanicKey(entry string, stack []byte) string {
 // persisted, all goroutine stacks are dumped and the process exits with code 3.
 // The driver re-runs that replay in a fresh process before calling it a violation.
 func Watchdog(test string, c any, d time.Duration) (stop func()) {
+	// self-test of the driver's handling of an expiry that does not reproduce: VERIF_TEST_HANG_ONCE names a marker
+	// file; the first case of shard 0 that finds it absent creates it and behaves like an expired watchdog
+	if m := os.Getenv("VERIF_TEST_HANG_ONCE"); m != "" && os.Getenv("VERIF_SHARD") == "0" && os.Getenv("VERIF_REPLAY") == "" {
+		if _, err := os.Stat(m); err != nil {
+			_ = os.WriteFile(m, []byte("x"), 0o644)
+			SaveReplay(test, c, V("hang:"+test, "terminates", "simulated expiry (driver self-test)"))
+			fmt.Fprintf(os.Stderr, "WATCHDOG %s expired after %v (simulated)\n", test, d)
+			Ev.Flush()
+			os.Exit(3)
+		}
+	}
 	tm := time.AfterFunc(d, func() {
 		SaveReplay(test, c, V("hang:"+test, "terminates", "no return within %v", d))
 		buf := make([]byte, 1<<20)
